@@ -364,6 +364,29 @@ def impl_scalar(sb, key, value):
     return cfg
 
 
+def text_values_check(rep, sb):
+    """`set <name> <value>`: the value is the whole remainder of the line (User-Agent strings, proxy
+    passwords and paths contain blanks)."""
+    from apt_mirror.config import Config
+    found = False
+    d = sb / "textvals"
+    d.mkdir(exist_ok=True)
+    cases = [("http_user_agent", "Debian APT-HTTP/1.3 (2.6.1)", "user_agent"),
+             ("http_user_agent", "single-token", "user_agent"),
+             ("proxy_password", "two words", None), ("certificate", "/etc/my certs/client.pem", "client_certificate")]
+    for key, value, attr in cases:
+        f = d / "m.list"
+        f.write_text(f"set {key} {value}\ndeb http://h/debian stable main\n")
+        cfg = Config(f, str(sb / "base"))
+        got = getattr(cfg, attr) if attr and hasattr(cfg, attr) else cfg[key]
+        rep.case(("set_text", key, value.count(" ")), sample={"key": key, "value": value, "got": got})
+        if got != value:
+            found = True
+            rep.violation(f"`set {key} {value}` gives {got!r}",
+                          {"kind": "oracle", "tie": "scalar", "case": {"key": key, "value": value}}, tags={"oracle": "set_text"})
+    return found
+
+
 def run(rep: C.Report):
     rep.rule = ("configuration files over a small universe (4 URLs + flat, 3 suites, 3 components, 3 "
                 "architectures): deb / deb-<arch> / deb-src lines with [arch=..,by-hash=..] options, slash "
@@ -405,6 +428,7 @@ def run(rep: C.Report):
                 z = None
             rep.case(("size", v))
             srows.append((v, cstr(cfg._variables["limit_rate"]), copt(z, cZ)))
+        found |= text_values_check(rep, sb)
     finally:
         shutil.rmtree(sb, ignore_errors=True)
     header = HEADER + COQ_DEFS
